@@ -7,8 +7,12 @@ import (
 	"fmt"
 	"math"
 	"math/rand"
+	"os"
+	"os/exec"
 	"reflect"
 	"strings"
+	"sync"
+	"sync/atomic"
 	"time"
 
 	"github.com/krotik/ecal/stdlib"
@@ -52,6 +56,8 @@ type brRec struct {
 	detail  string
 }
 
+type brCelsius float64
+
 var brErrType = reflect.TypeOf((*error)(nil)).Elem()
 var brIfaceType = reflect.TypeOf((*interface{})(nil)).Elem()
 
@@ -61,6 +67,7 @@ var brKindType = map[string]reflect.Type{
 	"uintptr": reflect.TypeOf(uintptr(0)), "float32": reflect.TypeOf(float32(0)), "float64": reflect.TypeOf(float64(0)),
 	"string": reflect.TypeOf(""), "bool": reflect.TypeOf(true), "iface": brIfaceType,
 	"list": reflect.TypeOf([]interface{}{}), "map": reflect.TypeOf(map[interface{}]interface{}{}), "error": brErrType,
+	"nint": reflect.TypeOf(time.Duration(0)), "nfloat": reflect.TypeOf(brCelsius(0)),
 }
 
 var brParamKinds = []string{"int", "int8", "int16", "int32", "int64", "uint", "uint8", "uint16", "uint32", "uint64", "uintptr", "float32", "float64", "string", "bool", "iface", "list", "map"}
@@ -74,6 +81,7 @@ var brOut = map[string]struct {
 	"uint": {uint(7), 14}, "uint8": {uint8(200), 400}, "uint16": {uint16(60000), 120000}, "uint32": {uint32(70000), 140000}, "uint64": {uint64(7), 14},
 	"uintptr": {uintptr(7), 14}, "float32": {float32(0.5), 1}, "float64": {float64(2.5), 5},
 	"string": {"r", 0}, "bool": {true, 0}, "iface": {int16(5), 10}, "list": {[]interface{}{float64(1)}, 0},
+	"nint": {time.Duration(1500), 3000}, "nfloat": {brCelsius(36.5), 73},
 }
 
 var brNumVal = map[string]float64{"n0": 0, "n1": 1, "nm1": -1, "n2h": 2.5, "nm2h": -2.5, "n127": 127, "n128": 128, "n255": 255, "n256": 256, "nm129": -129,
@@ -220,6 +228,57 @@ func brDescribe(ret interface{}, sig *brSig) (string, []brRet) {
 	return "single", []brRet{item(ret)}
 }
 
+func init() { childModes["c19conc"] = c19ConcChild }
+
+// c19ConcChild: 16 goroutines call bridged functions of several hundred function types for the first time at the same
+// moment (whatever the bridge remembers per function type is set up concurrently). A fatal error of the runtime ends
+// this process; the parent reads that as a crash of the bridge.
+func c19ConcChild(args []string) {
+	verifhook.Set(func(string, ...interface{}) {})
+	var cur *brCall
+	_ = cur
+	type entry struct {
+		ad   *stdlib.ECALFunctionAdapter
+		args []interface{}
+	}
+	var entries []entry
+	for _, a := range brParamKinds {
+		for _, b := range brParamKinds {
+			sig := &brSig{Params: []string{a, b}, Results: []string{"int"}, Err: "nil"}
+			call := &brCall{}
+			pc := &call
+			fn := sig.build(pc)
+			entries = append(entries, entry{stdlib.NewECALFunctionAdapter(fn, ""), []interface{}{float64(1), float64(2)}})
+		}
+	}
+	var wg sync.WaitGroup
+	start := make(chan struct{})
+	var bad int64
+	for w := 0; w < 16; w++ {
+		w := w
+		wg.Add(1)
+		go func() {
+			defer wg.Done()
+			<-start
+			for k := range entries {
+				e := entries[(k*7+w*13)%len(entries)]
+				func() {
+					defer func() {
+						if r := recover(); r != nil {
+							atomic.AddInt64(&bad, 1)
+						}
+					}()
+					e.ad.Run("", nil, nil, 0, e.args)
+				}()
+			}
+		}()
+	}
+	close(start)
+	wg.Wait()
+	fmt.Printf("C19CONC done escaped_panics=%d\n", atomic.LoadInt64(&bad))
+	os.Exit(0)
+}
+
 // C19 is the driver of property C19.
 func C19(r *ev.Run) {
 	tier := r.Tier
@@ -229,7 +288,7 @@ func C19(r *ev.Run) {
 
 	// signatures
 	resultSets := [][]string{{}, {"int8"}, {"uint64"}, {"float32"}, {"float64"}, {"string"}, {"iface"}, {"int", "string"}, {"float64", "bool", "uint16"}, {"list"},
-		{"error", "int32"}, {"uintptr", "uint8", "int16", "int64", "uint32"}, {"uint", "int32", "uint16"}}
+		{"error", "int32"}, {"uintptr", "uint8", "int16", "int64", "uint32"}, {"uint", "int32", "uint16"}, {"nint"}, {"nfloat", "string", "nint"}}
 	var paramSets [][]string
 	paramSets = append(paramSets, []string{})
 	for _, a := range brParamKinds {
@@ -451,6 +510,29 @@ func C19(r *ev.Run) {
 	r.Set("stdlib_functions", len(funcs))
 	r.Set("stdlib_calls", stdCalls)
 	r.Set("stdlib_results_compared", stdCompared)
+
+	// first calls of many function types at the same moment, in processes of their own
+	if self, err := os.Executable(); err == nil {
+		for rep := 0; rep < pick(tier, 6, 40); rep++ {
+			cmd := exec.Command(self, "C19")
+			cmd.Env = append(os.Environ(), "VERIF_CHILD=c19conc")
+			b, _ := cmd.CombinedOutput()
+			out := string(b)
+			r.Case(fmt.Sprintf("concurrent-first-calls/%d", rep), true)
+			if strings.Contains(out, "C19CONC done escaped_panics=0") {
+				continue
+			}
+			if strings.Contains(out, "C19CONC done") {
+				r.Violation("C19 panic escapes the bridge under concurrent calls", firstLineWith(out, "C19CONC"), map[string]interface{}{"goroutines": 16})
+			} else if crashLine(out) != "" {
+				r.Violation("C19 process death under concurrent first calls of bridged functions: "+crashLine(out), "16 goroutines calling 324 bridged function types for the first time at once ended the process", map[string]interface{}{"output_head": headStr(out, 1500)})
+			} else {
+				r.Inconclusive("concurrent child gave no result: " + headStr(out, 300))
+				return
+			}
+			break
+		}
+	}
 
 	bad, ok := validateTrace(r, "Bridge_Trace", "Bridge_Trace.cfg", trace, 60*time.Minute)
 	if !ok {
